@@ -311,6 +311,12 @@ class Weaver:
                     else:
                         ed.replace(p["span"][0], p["span"][1], fresh, "R2")
                         pre_lets.append(f"let {ptxt} = {fresh};")
+            if cs is not None and cs.get("cut"):
+                # R5: the closure text is cut out and replaced by a placeholder; a literal patch of the sidecar then redirects the
+                # call that consumed it (e.g. `iter.for_each(KVX_CLOSURE_0)`) to a stand-in specified through the closure-converted
+                # function proved separately
+                ed.replace(c["span"][0], c["span"][1], f"KVX_CLOSURE_{k}", "R5")
+                continue
             need_block = bool(pre_lets) or (cs is not None)
             if cs is not None:
                 ann = []
@@ -377,6 +383,57 @@ class Weaver:
         text = pre_attr + text
         self.records.append(record(it, src[s:e].decode("utf-8"), text, fired))
         return text, it
+
+
+def emit_closure_fn(w, spec):
+    """R5 (closure conversion): the body of closure #k of fn `path` is emitted as a named function whose parameters are the
+    closure's captured variables (given in the sidecar, e.g. `accumulate: &mut ResolvedAccountPolicy`) followed by the closure's
+    own parameters. The body text is copied byte-for-byte (D1 applies). This is the definitional meaning of calling the closure;
+    `iter.for_each(f)` calls it once per element, in order (std documentation of Iterator::for_each)."""
+    it = w.ix.find(spec["path"], kind="fn", trait=spec.get("trait"), file_hint=spec.get("file_hint"))
+    k = spec["ordinal"]
+    cls = it.get("closures", [])
+    if k >= len(cls):
+        raise Undecided(f"anchor lost: closure {k} of {spec['path']} (function has {len(cls)} closures)")
+    c = cls[k]
+    if not c["body_is_block"]:
+        raise Undecided(f"R5: closure {k} of {spec['path']} has an expression body")
+    names = [p["simple"] for p in c["inputs"]]
+    if None in names or names != spec.get("closure_params", names):
+        raise Undecided(f"R5: closure {k} of {spec['path']} has parameters {names}, contract expects {spec.get('closure_params')}")
+    src = w.ix.source(it["file"])
+    bs, be = c["body"]
+    ed = Edits(bs, src[bs:be])
+    for m in it.get("macros", []):
+        if bs <= m["span"][0] and m["span"][1] <= be:
+            if m["name"] in TRACE_MACROS:
+                if m["has_mut_borrow"]:
+                    raise Undecided(f"D1 refused in closure {k} of {spec['path']}")
+                ed.replace(m["span"][0], m["span"][1], "" if m["stmt"] else "()", "D1")
+            elif m["name"] in ASSERT_MACROS:
+                ed.replace(m["span"][0], m["span"][1], rewrite_assert(src[m["span"][0]:m["span"][1]].decode("utf-8"), m["name"]), "R1")
+    body, fired = ed.apply()
+    fid = spec.get("id", spec["path"] + f"#closure{k}")
+    hdr = []
+    if spec.get("requires"):
+        hdr.append("    requires")
+        for i, cl in enumerate(spec["requires"]):
+            tag, t = clause_tag(cl)
+            hdr.append("        " + w.mark(fid, "requires", i, tag, t) + ",")
+    if spec.get("ensures"):
+        hdr.append("    ensures")
+        for i, cl in enumerate(spec["ensures"]):
+            tag, t = clause_tag(cl)
+            hdr.append("        " + w.mark(fid, "ensures", i, tag, t) + ",")
+    sig = f"pub fn {spec['name']}({', '.join(spec['params'])})" + (f" -> ({spec['ret']})" if spec.get("ret") else "")
+    text = sig + "\n" + "\n".join(hdr) + "\n" + body
+    fired.append("R5")
+    for p in spec.get("patch", []):
+        text = apply_patch(text, p, fired, spec["path"])
+    orig = src[c["span"][0]:c["span"][1]].decode("utf-8")
+    rec = record({"path": spec["path"] + f"#closure{k}", "kind": "closure", "file": it["file"], "span": c["span"], "impl_trait": it.get("impl_trait")}, orig, text, fired)
+    w.records.append(rec)
+    return text, it
 
 
 def strip_inner_attrs(text, keep=()):
